@@ -170,3 +170,26 @@ func init() {
 		return m.tt.Const(64, uint64(m.vnow))
 	}
 }
+
+// time.Until / time.Since on the virtual clock, for Time values of the monotonic flavour whose
+// reading was taken from that clock (vNowClock-style harness clocks: ext = verifClock()).
+func init() {
+	ext := func(m *Machine, v Value) int64 {
+		sv, ok := v.(*StructV)
+		if !ok || len(sv.F) < 2 {
+			panic(m.unsupported("time.Until/Since: unexpected time.Time representation"))
+		}
+		wall, ok1 := sv.F[0].(*Term)
+		e, ok2 := sv.F[1].(*Term)
+		if !ok1 || !ok2 || !wall.IsConst() || !e.IsConst() || wall.Val>>63 == 0 {
+			panic(m.unsupported("time.Until/Since need a concrete monotonic time (harness clock)"))
+		}
+		return sext(e.Val, 64)
+	}
+	intrinsics["time.Until"] = func(m *Machine, th *Thread, fn *ssa.Function, a []Value, site ssa.Instruction) Value {
+		return m.tt.Const(64, uint64(ext(m, a[0])-m.vnow))
+	}
+	intrinsics["time.Since"] = func(m *Machine, th *Thread, fn *ssa.Function, a []Value, site ssa.Instruction) Value {
+		return m.tt.Const(64, uint64(m.vnow-ext(m, a[0])))
+	}
+}
